@@ -68,11 +68,11 @@ theorem C11_fold_shr (a b : I32) (h0 : 0 ≤ b.toInt) (h1 : b.toInt < 32) :
 theorem C11_fold_pow (a b : I32) (h0 : 0 ≤ b.toInt) :
     (foldBinary "**" a.toInt b.toInt).map i32 = some (alu .pow a b) := by
   have hn : ¬ b.toInt < 0 := by omega
-  simp [foldBinary, alu, ipow, hn, PyInt.pow, i32_pow, i32_toInt, toNat_of_nonneg b h0]
+  simp [foldBinary, alu, ipow_eq, hn, PyInt.pow, i32_pow, i32_toInt, toNat_of_nonneg b h0]
 
 theorem C11_fold_pow_neg (a b : I32) (h0 : b.toInt < 0) :
     (foldBinary "**" a.toInt b.toInt).map i32 = some (alu .pow a b) := by
-  simp [foldBinary, alu, ipow, h0, i32]
+  simp [foldBinary, alu, ipow_eq, h0, i32]
 
 theorem C11_fold_div_zero (a : I32) : (foldBinary "/" a.toInt (0 : I32).toInt).map i32 = some (alu .div a 0) := by
   simp [foldBinary, alu, sdiv0, i32]
